@@ -815,6 +815,241 @@ PARTS = {"scalar": gen_scalar, "errors": gen_errors}
 PARTS.update({"grammar": gen_grammar, "pratt": gen_pratt, "doc": gen_doc, "binop": gen_binop})
 
 
+# ----------------------------------------------------------------------------- std-lib export signatures
+
+def _tok_text(toks):
+    out = ""
+    for t in toks:
+        if out and (re.match(r"\w", t[0]) and re.match(r"\w", out[-1])):
+            out += " "
+        out += t
+    return out
+
+
+def std_exports():
+    """[(module, kind, name, [(pname, rust type, var_type override or None)], rust return type, return_type override or None)]"""
+    files = ["src/stdlib.rs"] + ["src/stdlib/%s.rs" % n for n in ("convert", "fs", "io", "math", "string")]
+    out = []
+    srcs = {}
+    for rel in files:
+        src = read(rel)
+        srcs[rel] = src
+        toks = lex(src)
+        i = 0
+        n = len(toks)
+        cur_mod = None
+        pending_ret = None
+        while i < n:
+            t = toks[i]
+            if t == "#" and toks[i + 1] == "[":
+                e = match_close(toks, i + 1)
+                attr = toks[i + 2:e]
+                if attr and attr[0] == "export":
+                    cur_mod = attr[2]
+                elif attr and attr[0] == "return_type":
+                    pending_ret = _tok_text(attr[2:-1])
+                i = e + 1
+                continue
+            if t == "pub" and i + 2 < n and toks[i + 1] == "fn":
+                name = toks[i + 2]
+                if toks[i + 3] != "(":
+                    raise TranslateError("%s: generic exported function %s" % (rel, name))
+                pe = match_close(toks, i + 3)
+                ptoks = toks[i + 4:pe]
+                params = []
+                for part in split_top(ptoks):
+                    override = None
+                    while part and part[0] == "#":
+                        ae = match_close(part, 1)
+                        attr = part[2:ae]
+                        if attr and attr[0] == "var_type":
+                            override = _tok_text(attr[2:-1])
+                        part = part[ae + 1:]
+                    if ":" not in part:
+                        raise TranslateError("%s: cannot read parameter of %s" % (rel, name))
+                    k = part.index(":")
+                    params.append((_tok_text(part[:k]), _tok_text(part[k + 1:]), override))
+                j = pe + 1
+                ret = "()"
+                if toks[j] == "->":
+                    k = j + 1
+                    depth = 0
+                    while not (toks[k] == "{" and depth == 0):
+                        if toks[k] == "<":
+                            depth += 1
+                        elif toks[k] == ">":
+                            depth -= 1
+                        k += 1
+                    ret = _tok_text(toks[j + 1:k])
+                    j = k
+                if cur_mod is None:
+                    raise TranslateError("%s: pub fn %s outside an #[export] item" % (rel, name))
+                out.append((cur_mod, "fn", name, params, ret, pending_ret))
+                pending_ret = None
+                i = match_close(toks, j) + 1
+                continue
+            if t == "pub" and i + 1 < n and toks[i + 1] == "const":
+                name = toks[i + 2]
+                k = i + 4
+                ty = []
+                while toks[k] != "=":
+                    ty.append(toks[k])
+                    k += 1
+                out.append((cur_mod, "const", name, [], _tok_text(ty), None))
+                while toks[k] != ";":
+                    k += 1
+                i = k + 1
+                continue
+            i += 1
+    return srcs, out
+
+
+RUST_TY = {
+    "()": ".unit", "bool": ".bool", "i64": ".i64", "u32": ".u32", "usize": ".usize", "f64": ".f64",
+    "&str": ".strRef", "String": ".string", "Arc<str>": ".arcStr", "std::sync::Arc<str>": ".arcStr",
+    "&[Variable]": ".slice", "Arc<[Variable]>": ".arcSlice", "&Variable": ".varRef", "Variable": ".variable",
+    "io::Error": ".ioError", "Array": ".array", "&Array": ".arrayRef", "Arc<Array>": ".arcArray", "i32": ".i32",
+}
+
+
+def rust_ty(text):
+    t = "".join(text.split())
+    if t in RUST_TY:
+        return RUST_TY[t]
+    m = re.fullmatch(r"Option<(.*)>", t)
+    if m:
+        return "(.option %s)" % rust_ty(m.group(1))
+    m = re.fullmatch(r"io::Result<(.*)>", t)
+    if m:
+        return "(.ioResult %s)" % rust_ty(m.group(1))
+    raise TranslateError("std signature: Rust type %r is not in the modelled set" % text)
+
+
+def var_type_to_lean(text):
+    """the `var_type!` mini-language, as far as std signatures use it -> Lean `Ty` term"""
+    toks = re.findall(r"\(\)|[A-Za-z_][A-Za-z_0-9]*|[\[\]{}|:,()]", text)
+    if "".join(toks) != "".join(text.split()):
+        raise TranslateError("var_type text not understood: %r" % text)
+    pos = [0]
+
+    def peek():
+        return toks[pos[0]] if pos[0] < len(toks) else None
+
+    def eat(x=None):
+        t = peek()
+        if t is None or (x is not None and t != x):
+            raise TranslateError("var_type text not understood: %r" % text)
+        pos[0] += 1
+        return t
+
+    def atom():
+        t = eat()
+        prim = {"int": ".int", "float": ".float", "string": ".str", "bool": ".bool", "any": ".any", "()": ".void"}
+        if t in prim:
+            return prim[t]
+        if t == "[":
+            e = union()
+            eat("]")
+            return "(.arr %s)" % e
+        if t == "struct":
+            eat("{")
+            fs = []
+            while peek() != "}":
+                k = eat()
+                eat(":")
+                fs.append("(%s, %s)" % (lstr(k), union()))
+                if peek() == ",":
+                    eat(",")
+            eat("}")
+            return "(.struct [%s])" % ", ".join(fs)
+        raise TranslateError("var_type text not understood: %r" % text)
+
+    def union():
+        ms = [atom()]
+        while peek() == "|":
+            eat("|")
+            ms.append(atom())
+        return ms[0] if len(ms) == 1 else "(.multi [%s])" % ", ".join(ms)
+
+    r = union()
+    if pos[0] != len(toks):
+        raise TranslateError("var_type text not understood: %r" % text)
+    return r
+
+
+def type_of_body_to_lean(body):
+    m = re.fullmatch(r"Type::(\w+)", body)
+    if m:
+        prim = {"Void": ".void", "Bool": ".bool", "Int": ".int", "Float": ".float", "String": ".str", "Any": ".any"}
+        if m.group(1) not in prim:
+            raise TranslateError("type_of body %r" % body)
+        return prim[m.group(1)]
+    m = re.fullmatch(r"var_type!\((.*)\)", body)
+    if m:
+        return var_type_to_lean(m.group(1))
+    raise TranslateError("type_of body not understood: %r" % body)
+
+
+RESULT_RULE = "let ok = T::type_of(); let err = S::type_of(); var_type!(ok | err)"
+
+
+def gen_stdsig():
+    srcs, ex = std_exports()
+    tsrc = read("src/variable/type_of.rs")
+    msrc = read("macros/src/export.rs")
+    # the macro's argument import and result conversion, as modelled in Model/StdLib.lean
+    for needle in ("interpreter.get_variable(#ident_str).unwrap().try_into().unwrap()",
+                   "<#param_type as simplesl::variable::TypeOf>::type_of()",
+                   ").map(|value| value.into())"):
+        if needle not in msrc:
+            raise TranslateError("macros/src/export.rs: expected %r" % needle)
+    table = []
+    result_rule = False
+    for m in re.finditer(r"(?:#\[duplicate_item\(T;(.*?)\)\]\s*)?impl(?:<[^>]*>)?\s+TypeOf\s+for\s+(.*?)\s*\{\s*fn type_of\(\) -> Type \{(.*?)\n    \}", tsrc, re.S):
+        dup, target, body = m.group(1), m.group(2), m.group(3)
+        body = " ".join(body.split())
+        targets = [x.strip() for x in re.findall(r"\[([^\[\]]*(?:\[[^\[\]]*\][^\[\]]*)*)\]", dup)] if dup else [target.strip()]
+        for tg in targets:
+            tg = "".join(tg.split())
+            if tg == "Result<T,S>":
+                if body != RESULT_RULE:
+                    raise TranslateError("type_of.rs: Result<T, S> rule changed: %r" % body)
+                result_rule = True
+                continue
+            if tg.startswith("Result<"):
+                continue   # Result<_, ExecError> forms: not used by exported signatures
+            table.append((rust_ty(tg), type_of_body_to_lean(body)))
+    if len(table) < 12:
+        raise TranslateError("type_of.rs: TypeOf table not recognised (%d entries)" % len(table))
+    lines = ["-- GENERATED by tools/translate.py from /repo (do not edit).",
+             "-- sources: " + ", ".join("%s@%s" % (k, sha(v)) for k, v in sorted(srcs.items())) +
+             ", src/variable/type_of.rs@" + sha(tsrc) + ", macros/src/export.rs@" + sha(msrc),
+             "import SslModel.Model.StdTypes",
+             "namespace Ssl.Gen", "open Ssl", "",
+             "/-- every `pub fn` / `pub const` of the `#[export]` items of src/stdlib.rs, src/stdlib/*.rs -/",
+             "def stdExports : List StdExport := ["]
+    rows = []
+    for mod, kind, name, params, ret, ro in ex:
+        ps = ", ".join("(%s, %s, %s)" % (lstr(a), rust_ty(b), "some " + var_type_to_lean(c) if c else "none") for a, b, c in params)
+        rows.append("  { module := %s, isConst := %s, name := %s, params := [%s], ret := %s, retOverride := %s }" %
+                    (lstr(mod), "true" if kind == "const" else "false", lstr(name), ps, rust_ty(ret),
+                     "some " + var_type_to_lean(ro) if ro else "none"))
+    lines.append(",\n".join(rows))
+    lines.append("]")
+    lines.append("")
+    lines.append("/-- `impl TypeOf for …` table of src/variable/type_of.rs -/")
+    lines.append("def typeOfTable : List (RustTy × Ty) := [")
+    lines.append(",\n".join("  (%s, %s)" % (a, b) for a, b in table))
+    lines += ["]", "",
+              "/-- `impl<T: TypeOf, S: TypeOf> TypeOf for Result<T, S>` is `T::type_of() | S::type_of()` -/",
+              "def resultRule : Bool := %s" % ("true" if result_rule else "false"),
+              "", "end Ssl.Gen", ""]
+    return write_if_changed("StdSig.lean", "\n".join(lines))
+
+
+PARTS["stdsig"] = gen_stdsig
+
+
 def main(argv):
     global REPO, OUT
     args = list(argv)
